@@ -2970,17 +2970,37 @@ func (d *Document) serializeRelationships() {
 
 // serializeDocumentRelationships 序列化文档关系
 func (d *Document) serializeDocumentRelationships() {
-	// 获取已存在的关系，从索引1开始（保留给styles.xml）
-	relationships := []Relationship{
-		{
-			ID:     "rId1",
-			Type:   "http://schemas.openxmlformats.org/officeDocument/2006/relationships/styles",
+	const stylesRelType = "http://schemas.openxmlformats.org/officeDocument/2006/relationships/styles"
+
+	existing := d.documentRelationships.Relationships
+	relationships := make([]Relationship, 0, len(existing)+1)
+
+	// styles.xml 的关系：打开的文档保留其原有关系（含原ID）；否则新增一个，
+	// 优先使用 rId1，若 rId1 已被其他关系占用则分配一个未使用的ID
+	hasStyles := false
+	for _, rel := range existing {
+		if rel.Type == stylesRelType {
+			hasStyles = true
+			break
+		}
+	}
+	if !hasStyles {
+		stylesID := "rId1"
+		for _, rel := range existing {
+			if rel.ID == stylesID {
+				stylesID = nextRelationshipID(existing, 1)
+				break
+			}
+		}
+		relationships = append(relationships, Relationship{
+			ID:     stylesID,
+			Type:   stylesRelType,
 			Target: "styles.xml",
-		},
+		})
 	}
 
-	// 添加动态创建的文档级关系（如页眉、页脚等）
-	relationships = append(relationships, d.documentRelationships.Relationships...)
+	// 添加文档级关系（如页眉、页脚、图片等）
+	relationships = append(relationships, existing...)
 
 	// 创建文档关系
 	docRels := &Relationships{
@@ -3129,14 +3149,10 @@ func (d *Document) parseDocumentRelationships() error {
 		return WrapError("parse_document_relationships", err)
 	}
 
-	// 保存解析的关系（不包括styles.xml，因为它在serializeDocumentRelationships中会自动添加）
-	// 过滤掉styles.xml的关系，因为它总是rId1并在保存时自动添加
-	filteredRels := make([]Relationship, 0)
-	for _, rel := range relationships.Relationships {
-		if rel.Type != "http://schemas.openxmlformats.org/officeDocument/2006/relationships/styles" {
-			filteredRels = append(filteredRels, rel)
-		}
-	}
+	// 保存解析的全部关系，保持其原有的ID、类型和目标不变
+	// （styles.xml 的关系也原样保留；serializeDocumentRelationships 只在缺失时才补充）
+	filteredRels := make([]Relationship, 0, len(relationships.Relationships))
+	filteredRels = append(filteredRels, relationships.Relationships...)
 
 	d.documentRelationships.Relationships = filteredRels
 	Debugf("文档关系解析完成，共 %d 个关系", len(filteredRels))
